@@ -35,6 +35,8 @@ def check(model: Model, run: Run) -> None:
     ambiguity(model, run, "E1-no-exponential-ambiguity", None, 10, 8)
     # ---- scanner progress (best effort, structural) ---------------------------------------
     progress_rule(model, run)
+    from ..readerrules import lemma_consuming_methods_advance
+    lemma_consuming_methods_advance(model, run)
     # ---- recursion: no value is descended into twice by one frame --------------------------
     double_descent(model, run)
     error_text_growth(model, run)
